@@ -7,14 +7,15 @@ correspondence: (a) model deps (bit overlap) vs the implementation's _dag.all_co
                 checked by the model's topoB; (c) run-time call order recorded with sys.setprofile; (d) SimpleSchedulePass
                 schedule replayed through the model's Kahn; (e) explicit U<U constraints, inversions and pure explicit cycles;
                 (f) method constraints: c02_methods.run (model `process` vs the pairs the pass adds; schedule and run-time call order);
-                (g) blocking (FL) blocks wrapped by WrapGreenletPass: c02_greenlet.run (execution trace per cycle under four pass groups)
+                (g) blocking (FL) blocks wrapped by WrapGreenletPass: c02_greenlet.run (execution trace per cycle under four pass groups);
+                (h) open-loop schedule with top-level callee ports (OpenLoopCLPass): c02_openloop.run
 direct oracle:  positions in the real schedules / real call order vs bit overlap computed independently in Python (rtlgen.py_deps)
 """
 import sys
 
 from ..common import leanio, rtlgen
 from ..common.leanio import InfraError
-from . import c02_methods, c02_gendag, c02_greenlet
+from . import c02_methods, c02_gendag, c02_greenlet, c02_openloop
 
 PID = 'C02'
 DRIVERS = ['rtl']
@@ -23,14 +24,16 @@ THEOREMS = ['PV.C02.' + t for t in ['overlap_spec', 'rngsOverlap_spec', 'rngsOve
                                     'kahn_sound', 'kahn_leftover']] + c02_methods.THEOREMS
 THEOREM_MODULE = {t: c02_methods.MODULE for t in c02_methods.THEOREMS}
 TRUSTED = [
+  'OpenLoopCLPass: the mapping actual method -> top-level CalleePort -> rdy guard and the wrapper indices (my_idx_orig / my_idx_new) are unmodelled; the harness reconstructs the schedule from those wrapper closures and judges it against the constraints as declared in the source (c02_openloop.declared_pairs), so an error in the mapping shows as a violated declared constraint, not as a model disagreement',
   'Model/Methods.lean stands for GenDAGPass._process_methods; its input is read off the elaborated design by c02_methods.Extract with the same port/interface -> actual method translation as the pass (dict/set semantics of the method objects)',
   'Model/Rtl.lean footprints: whole signals, fields and slices are bit ranges of the top-level signal; explicit constraints are handled by the harness oracle, not by the Lean model',
   'Kahn model (Model/Kahn.lean) with an arbitrary tie-break oracle stands for SimpleSchedulePass/HeuristicTopoPass.schedule_intra_cycle',
 ]
 ASSUMPTIONS = [
   'method constraints: GenDAGPass._process_methods is modelled (Model/Methods.lean: == classes by flood fill, pred/succ maps, per-method search with direction w, the four exclusions) and proved (Props/C02m.lean: process_exact = exact characterisation of the added block pairs for any number of hops; sound; complete for direct M<M / U<M / M<U constraints through == classes on both sides; complete along search walks; schedule corollaries incl. Kahn with any tie-break); tied to the code by comparing the added pairs on stdlib CL designs and generated method-port components (harness/checks/c02_methods.py)',
-  'PARTIAL (method clause): not proved and not true of the code — ordering through a chain that passes through a constrained BLOCK is only obtained by composing the two added pairs; exclusions are evaluated on the last hop only; acyclicity of the result is not claimed (cycles are rejected by the scheduler). Not modelled: OpenLoopCLPass (top_level_callee_constraints, its own schedule), CLLineTracePass wrappers (switched off in the generated-method designs so that method identities stay those the DAG pass used; the queue probe runs with them on)',
+  'PARTIAL (method clause): not proved and not true of the code — ordering through a chain that passes through a constrained BLOCK is only obtained by composing the two added pairs; exclusions are evaluated on the last hop only; acyclicity of the result is not claimed (cycles are rejected by the scheduler). Not modelled: CLLineTracePass wrappers (switched off in the generated-method designs so that method identities stay those the DAG pass used; the queue probe runs with them on)',
   'blocking FL interfaces / greenlet wrapping: WrapGreenletPass (renaming of the wrapped blocks in all_constraints / final_upblks) is NOT modelled in Lean; it is exercised by harness/checks/c02_greenlet.py: generated designs with >= 2 greenlet-wrapped update_once blocks joined by value edges, explicit U<U and stdlib-queue M<M pairs, under SimpleSimPass / DefaultPassGroup / UnrollSim / Mamba2020, with the per-cycle execution-trace oracle (each block once, writer before reader, explicit and method pairs honoured, same-cycle values) and the structural tie (every end-point of all_constraints is in final_upblks; pairs mapped back to blocks compared with the method model)',
+  'open-loop simulation (OpenLoopCLPass / AutoTickSimPass): NOT modelled in Lean — neither top_level_callee_constraints (the pairs of actual methods GenDAGPass collects for top-level callees) nor the pass\'s translation of raw methods to CalleePort vertices and of a non-blocking method to its rdy guard; exercised by harness/checks/c02_openloop.py: generated tops with 1-4 callee ports and 1-4 blocks with U<M, M<U, M<M, M==M constraints (an == class on one side of a < only) and the stdlib CL queues as top, 10+ re-seeded repetitions each; the installed schedule (read from the wrapper closures) and the execution log of random call sequences are checked against the DECLARED constraints (ports / blocks as given to add_constraints); the block pairs for non-top methods are tied to Model/Methods.process as elsewhere; any topological order is acceptable (PV.C02.kahn_sound, PV.C11s)',
   'struct fields are not generated here (bit ranges via slices only); nested-field footprints are covered by the theorem about ranges',
 ]
 RULE = ('method clause: stdlib CL chains (1-3 of Pipe/Bypass/Normal/DelayPipeDeq queues, optional StallCL front, deq / deq-side pass-through / DelayPipeSendCL tail, shuffled block order), '
@@ -156,10 +159,30 @@ def process_explicit(ck, d, kind, info):
       err = type(e).__name__ + ': ' + str(e)[:200]; rs = None
     if kind == 'cycle':
       if err != 'UpblkCyclicError':
+        if rs is not None:
+          # Was the cycle really free of value-carrying signals in the IMPLEMENTATION's dependency analysis (which may
+          # record conservative reads, e.g. every element for a signal-valued index)?  If the two blocks are also linked by
+          # a value edge, iterating the group is the specified behaviour, not a violation.  (That analysis itself is
+          # compared with the model elsewhere: deps⊆all_constraints, Props/C02d.)
+          E = rtlgen.real_edges(rs) - set(d.explicit)
+          a, b = info[1], info[2]
+          if rtlgen.reachable(E, a, b) or rtlgen.reachable(E, b, a):
+            ck.hist('explicit', 'cycle-with-value-edge'); continue
         ck.violation('explicit-cycle-accepted', {'flow': flow}, {'source': src, 'flow': flow},
                      {'outcome': err or 'scheduled', 'oracle': 'a cycle among explicit constraints with no value-carrying signal must raise UpblkCyclicError'})
       continue
     if err is not None:
+      if err == 'UpblkCyclicError':
+        # legal only if the explicit edge closes no cycle in the IMPLEMENTATION's constraint graph (whose reads may be
+        # conservative): read that graph from the cycle-tolerant default flow and look for a value path the other way
+        try:
+          rs0 = rtlgen.RealSim(cls, d, 'default')
+          E0 = rtlgen.real_edges(rs0) - set(d.explicit)
+          x, y = info[1], info[2]                 # the explicit edge x -> y
+          if rtlgen.reachable(E0 - {(y, x)}, y, x):
+            ck.hist('explicit', kind + '-closes-a-value-cycle'); continue
+        except Exception:
+          pass
       ck.violation('legal-constraints-rejected', {'flow': flow, 'kind': kind}, {'source': src, 'flow': flow}, {'outcome': err})
       continue
     expected = set(pdeps)
@@ -286,10 +309,13 @@ def run(ck):
   ck.extra_cov['plain_designs'] = n
   ck.extra_cov['explicit_designs'] = made
   c02_gendag.run(ck)
+  # last on purpose: ck.count draws from ck.rng, so a stream inserted earlier would change the designs of the streams above
+  c02_openloop.run(ck)      # open-loop (AutoTickSimPass) schedule with top-level callee ports vs the declared constraints
 
 def replay(ck, data):
   print(data.get('kind'), data.get('signature')); print(str(data.get('detail'))[:1500])
   if (data.get('case') or {}).get('gendag'): return c02_gendag.replay(ck, data['case'])
   if (data.get('case') or {}).get('methods'): return c02_methods.replay(ck, data['case'])
   if (data.get('case') or {}).get('greenlet'): return c02_greenlet.replay(ck, data['case'])
+  if (data.get('case') or {}).get('openloop'): return c02_openloop.replay(ck, data['case'])
   return rtlgen.replay_source(ck, data.get('case') or {})
